@@ -333,12 +333,18 @@ def run(chk, replay=None):
         pfut = [pool.submit(kc.work_param, j) for j in pjobs]
         cfut = [pool.submit(kc.work_compose, j) for j in cjobs]
         ofut = [pool.submit(kc.work_obs, j) for j in ojobs]
+        bfut = pool.submit(kc.work_pole_below_threshold, chk.seed) if not replay else None
 
         results = [f.result() for f in lattice_futs]
         skel_recs, errors = build_skel_records(results, plan)
         t_lattice = time.time() - t0
         srecs = [f.result() for f in pfut] + [f.result() for f in cfut]
         orecs = [f.result() for f in ofut]
+        if bfut is not None:
+            chk.note("boundary of the property, measured, not judged: RelativisticKMatrix n_channels=2, n_poles=1 with the pole mass (1.5) below the "
+                     "threshold of channel 1 (m_a[1]=m_b[1]=0.9) and s=5 above every threshold: " + "; ".join(bfut.result())
+                     + ". The energy-dependent width divides by rho(m_R^2) and the form factor at m_R^2, which are imaginary / negative there, so K is "
+                     "not real; the observation law therefore requires every pole mass above every channel threshold (field mthr).")
     finally:
         pool.shutdown(wait=True, cancel_futures=True)
 
